@@ -456,6 +456,14 @@ func inputs() {
 					if enabled {
 						want = []ri.Ev{{Kind: "mouse", X: 3, Y: 2, Buttons: btn[which], Mod: m}}
 					}
+					if cb == "onMouseClick" && f&tcell.MouseButtonEvents == 0 && f&tcell.MouseDragEvents != 0 {
+						// MouseDragEvents is documented as "includes button events": a click may or
+						// may not be delivered with drag reporting alone; if it is, it must be right
+						if len(got) == 0 {
+							continue
+						}
+						want = []ri.Ev{{Kind: "mouse", X: 3, Y: 2, Buttons: btn[which], Mod: m}}
+					}
 					if !ri.EqEvs(got, want) {
 						w.Violation(fmt.Sprintf("wasm-mouse:%s:flags%d", cb, flags), fmt.Sprintf("%s(button %d, modifiers %03b) with mouse flags %03b delivered %v, want %v", cb, which, mi, flags, got, want), nil)
 					}
